@@ -59,6 +59,13 @@ pub struct Plan {
     pub headers: Vec<(String, String)>,
     pub decision: Decision,
     pub dns: Dns,
+    /// per-stream receive window of both endpoints in bytes (0 = default): with 40-1000 bytes
+    /// of credit the request and the response are written in pieces. (Below the size of the
+    /// SETTINGS frame, ~25 B, two wtransport endpoints wait for each other until the idle
+    /// timeout: each worker sends its SETTINGS to completion before it starts accepting the
+    /// peer's streams. Transport windows are not in C02's quantifier; see DESIGN.md section 7.)
+    #[serde(default)]
+    pub stream_window: u64,
 }
 
 const STATIC_NAMES: [(&str, &str); 14] = [
@@ -257,7 +264,8 @@ pub fn gen_plan(seed: u64, faulty: bool) -> Plan {
     } else {
         Dns::Ok
     };
-    Plan { seed, rt, net, host, port, userinfo, path, query, fragment, headers, decision, dns }
+    let stream_window = if rng.chance_pm(200) { *rng.pick(&[40u64, 64, 200, 1000]) } else { 0 };
+    Plan { seed, rt, net, host, port, userinfo, path, query, fragment, headers, decision, dns, stream_window }
 }
 
 #[derive(Debug)]
@@ -309,7 +317,10 @@ pub fn execute(plan: &Plan, trace: bool) -> Exec {
             Host::V6 => (format!("[fd00::1]:{port}").parse().unwrap(), "[fd00::2]:50000".parse().unwrap()),
             _ => (format!("10.0.0.1:{port}").parse().unwrap(), "10.0.0.2:50000".parse().unwrap()),
         };
-        let k = EpKnobs::default();
+        let mut k = EpKnobs::default();
+        if plan.stream_window > 0 {
+            k.stream_recv_window = plan.stream_window;
+        }
         let (sep, _ss) = harness::server_on(&net, harness::server_config(saddr, &k, harness::fixed_identity(), r.seed32()), saddr);
         let mut ccfg = harness::client_config(caddr, &k, r.seed32());
         let asked = Arc::new(Mutex::new(Vec::new()));
